@@ -112,9 +112,41 @@ def evaluate(case):
             "key": (T, api, g, gor)}
 
 
+def dispatch(case):
+    return eval_history(case) if case.get("kind") == "history" else evaluate(case)
+
+
+def eval_history(case):
+    """Oils that share all parameters but one, evaluated in three call orders in one process: the
+    correlations are pure functions, so every value must be independent of what was evaluated before."""
+    from bluebonnet.fluids import oil  # noqa: PLC0415
+
+    from ..common import purity_violations  # noqa: PLC0415
+
+    T, api, g, gor = case["base"]
+    oils = [(T, api, g, gor), (T + 40, api, g, gor), (T, api + 9, g, gor), (T, api, g + 0.3, gor), (T, api, g - 0.15, gor),
+            (T, api, g, gor * 1.7)]
+    calls = []
+    for o in oils:
+        pb = float(oil.pressure_bubblepoint_Standing(*o))
+        for p in (0.4 * pb, 0.9 * pb, pb, 1.6 * pb, 1500.0):
+            args = (o[0], p, o[1], o[2], o[3])
+            O = "bluebonnet.fluids.oil:"
+            calls += [("viscosity_beggs_robinson", O + "viscosity_beggs_robinson", args),
+                      ("solution_gor_Standing", O + "solution_gor_Standing", args),
+                      ("b_o_Standing", O + "b_o_Standing", args), ("density_Standing", O + "density_Standing", args)]
+        calls.append(("pressure_bubblepoint_Standing", "bluebonnet.fluids.oil:pressure_bubblepoint_Standing", o))
+    viol = purity_violations(calls)
+    for v in viol:
+        v["case"] = dict(case, call=v["case"])
+    return {"violations": viol[:3], "outcome": "history", "evals": 3 * len(calls)}
+
+
 def run(ctx):
     cs = cases(ctx.tier, ctx.seed)
-    res = ctx.pmap(evaluate, cs)
+    cs += [{"kind": "history", "base": b} for b in ([200.0, 35.0, 0.8, 650.0], [120.0, 20.0, 0.7, 150.0],
+                                                     [320.0, 50.0, 1.1, 2000.0])]
+    res = ctx.pmap(dispatch, cs)
     cov = {
         "evaluations": sum(r.get("evals", 0) for r in res),
         "distinct_nontrivial": sum(1 for r in res if r.get("key")),
@@ -127,4 +159,5 @@ def run(ctx):
 
 
 def replay(case):
-    return evaluate(case)["violations"]
+    case = {k: v for k, v in case.items() if k != "call"}
+    return dispatch(case)["violations"]
